@@ -97,8 +97,9 @@ Definition C12_proved_fragment : Prop :=
         df_sql_a plumbing_facts string (deval s) None = Some (s_out s) /\
         deval s None (pf_to_sql_from plumbing_facts) = Some (s_in s))
   /\ (forall E s u,
-        option_map (fun t => let '(p, f, t') := t in (conc s u p, conc s u f, conc s u t')) (names_resolved plumbing_facts E)
-        = Some (s_exec s, s_exec s, s_out s))
+        exists p, names_resolved plumbing_facts E = Some (p, VExec, VOut)
+                  /\ (p = None \/ option_map (conc s u) p = Some (s_exec s))
+                  /\ conc s u VExec = s_exec s /\ conc s u VOut = s_out s)
   /\ (forall E, In E property_engines -> forall n, In n (exports func_facts E) ->
         (forall fb, dispatch func_facts (default_sess base_facts engine_facts E) n fb = Found n) /\
         exists uns, sassoc n (ff_table func_facts) = Some (Some uns) /\ mem (engine_name E) uns = false)
